@@ -592,6 +592,12 @@ Definition key_ok (k : list Z) : Prop :=
   lower k = k /\ stripped k = true.
 Definition main_ok (v : list Z) : Prop :=
   ~ In 59 v /\ ~ In 34 v /\ stripped v = true.
+(* no value that is followed by another parameter ends in a backslash *)
+Fixpoint no_bs_before_next (ps : list (list Z * list Z)) : Prop :=
+  match ps with
+  | [] => True
+  | kv :: t => (t <> [] -> last (snd kv) 0 <> 92) /\ no_bs_before_next t
+  end.
 
 (* ---------------------------------------------------- correspondence *)
 Definition enc_out {A} (enc : A -> V) (o : outcome A) : V :=
@@ -603,7 +609,6 @@ Definition enc_range_dict (d : range_dict) : V :=
 Definition run_parse_range (s : list Z) : V := enc_out enc_range_dict (parse_range s).
 Definition run_findall (s : list Z) : V :=
   VL (map (fun m => VL [VS (fst m); VS (snd m)]) (findall s)).
-Definition dec_range (r : range_t) : range_t := r.
 Definition run_render_ranges (units : list Z) (rs : list range_t) : V :=
   VS (render_ranges units rs).
 Definition run_content_range (units : list Z) (a b : Z) (full : option Z) : V :=
